@@ -8,6 +8,7 @@ import (
 	"fmt"
 	"math/rand/v2"
 	"sort"
+	"sync"
 	"testing"
 	"testing/synctest"
 	"time"
@@ -74,6 +75,7 @@ type sys struct {
 	refKeys []uint64
 	rels    []*ctl.Actor
 	ctorN   map[uint64]uint64
+	cbmu    sync.Mutex
 	cblog   [][3]uint64
 	cbseen  int
 	start   time.Time
@@ -117,7 +119,10 @@ func newSys(w *hist.W, cfg []uint64) *sys {
 	}
 	opts := []keyed.Option[uint64, uint64]{
 		keyed.WithExitCb(func(key uint64, _ keyed.Routine, data uint64, err error) {
+			// exit callbacks of different instances run concurrently once the gates are switched off (teardown)
+			s.cbmu.Lock()
 			s.cblog = append(s.cblog, [3]uint64{key, data, codeOf(err)})
+			s.cbmu.Unlock()
 		}),
 	}
 	if cfg[1] != 0 {
@@ -283,8 +288,10 @@ func (s *sys) obs(rets []uint64) []uint64 {
 			o = append(o, 2, d.key, 0, 0, 0)
 		}
 	}
-	delta := s.cblog[s.cbseen:]
+	s.cbmu.Lock()
+	delta := append([][3]uint64{}, s.cblog[s.cbseen:]...)
 	s.cbseen = len(s.cblog)
+	s.cbmu.Unlock()
 	o = append(o, uint64(len(delta)))
 	for _, x := range delta {
 		o = append(o, x[0], x[1], x[2])
